@@ -281,6 +281,23 @@ class SigWorld(HistoryWorld):
         ok, res = self._call(st, sigs)
         ctx.obs(ok)
         ctx.evaluated(1)
+        # the same arguments handed over as other kinds of collection (the set as a tuple, a dict view, a one-shot iterator - e.g.
+        # islice(vset.list.values(), vset.main) - the signatures as a tuple or an iterator).  A library may insist on lists (its
+        # annotations say List) and refuse the others; what it may not do is ACCEPT through them a set it has to reject
+        if verdict == 'must-raise':
+            clean = [{'node_id_short': x['node_id_short'], 'signature': x['signature']} for x in sigs]
+            for form, mk_nodes, mk_sigs in (('nodes-as-iterator', lambda: iter(list(st.nodes)), lambda: list(clean)),
+                                            ('nodes-as-generator', lambda: (n for n in st.nodes), lambda: tuple(clean)),
+                                            ('nodes-as-dict-values', lambda: dict(enumerate(st.nodes)).values(), lambda: iter(clean)),
+                                            ('nodes-as-tuple', lambda: tuple(st.nodes), lambda: list(clean))):
+                ok_f, _ = call(lambda: check_block_signatures(mk_nodes(), mk_sigs(), st.blk))
+                ctx.evaluated(1)
+                if ok_f:
+                    ctx.probe('arguments-as-other-collections')
+                    self.V(ctx, 'accepted-invalid-set', 'check_block_signatures', why + '/' + form,
+                           'with the validator set / signatures handed over as %s, a signature set that must be rejected (%s) was accepted' % (form, why))
+                    return
+            ctx.probe('arguments-as-other-collections')
         if verdict == 'must-raise' and ok:
             self.V(ctx, 'accepted-invalid-set', 'check_block_signatures', why,
                    'accepted a signature set that must be rejected (%s): %d signatures, %d distinct valid signers, weight %d of %d' % (why, len(sigs), len(set(s['_v'] for s in sigs if s['_kind'] == 'valid')), w, total))
